@@ -14,6 +14,7 @@
 
 #include "aln_param.h"
 #include "aln_run.h"
+#include "kalign_verif.h"
 
 
 #ifdef HAVE_OPENMP
@@ -22,6 +23,10 @@
 
 #define ALN_WRAP_IMPORT
 #include "aln_wrap.h"
+
+#ifdef KALIGN_VERIF
+void (*kalign_verif_hook)(int ev, int a, int b, int c, const void* p, const void* q) = NULL;
+#endif
 
 
 int kalign(char **seq, int *len, int numseq,int n_threads, int type, float gpo, float gpe, float tgpe, char ***aligned, int *out_aln_len)
@@ -51,6 +56,7 @@ int kalign_run(struct msa *msa, int n_threads, int type, float gpo, float gpe, f
 {
         struct aln_tasks* tasks = NULL;
         struct aln_param* ap = NULL;
+        KV_EVENT(KV_RUN_BEGIN,0,0,0,msa,NULL);
         /* This also adds the ranks of the sequences !  */
         RUN(kalign_essential_input_check(msa, 0));
 
@@ -86,6 +92,7 @@ int kalign_run(struct msa *msa, int n_threads, int type, float gpo, float gpe, f
 #endif
         /* Build guide tree */
         RUN(build_tree_kmeans(msa,&tasks));
+        KV_EVENT(KV_TREE,tasks->n_tasks,0,0,tasks,msa);
 
         /* Convert to full alphabet after having converted to reduced alphabet for tree building above  */
         if(msa->biotype == ALN_BIOTYPE_PROTEIN){
@@ -105,6 +112,7 @@ int kalign_run(struct msa *msa, int n_threads, int type, float gpo, float gpe, f
                            gpo,
                            gpe,
                            tgpe));
+        KV_EVENT(KV_PARAMS,0,0,0,ap,msa);
 
 
         DECLARE_TIMER(t1);
@@ -134,6 +142,7 @@ int kalign_run(struct msa *msa, int n_threads, int type, float gpo, float gpe, f
         }
         DESTROY_TIMER(t1);
 
+        KV_EVENT(KV_RUN_END,0,0,0,msa,NULL);
         aln_param_free(ap);
         free_tasks(tasks);
         return OK;
